@@ -945,6 +945,17 @@ where
         if !seen_cond && seen_if {
             // This is the condition expression - keep it flat (don't break inside)
             // We use group() on the condition to try to keep it on one line
+            let is_paren = matches!(
+                node,
+                mimium_lang::compiler::parser::green::GreenNode::Internal {
+                    kind: SyntaxKind::ParenExpr,
+                    ..
+                }
+            );
+            if !is_paren {
+                // `if cond {..}`: without the space keyword and condition are glued (`ifcond`)
+                result = result.append(allocator.space());
+            }
             result = result.append(child_doc.group());
             seen_cond = true;
         } else if !seen_then && seen_cond {
